@@ -26,7 +26,7 @@ TIMES = [0.25, 0.0, 1.3924182125972017e-08, -2.5, 1e-300, 70100.0, 0.49947225144
 
 @st.composite
 def mesh_specs(draw, ndims=None, min_levels=1, max_levels=3, max_cells=6000,
-               layouts=("single", "scatter", "nonmono"), force_no_unit=None, max_nb0=5):
+               layouts=("single", "scatter", "nonmono"), force_no_unit=None, max_nb0=5, thin=False):
     nd = draw(st.sampled_from([2, 3])) if ndims is None else ndims
     bf = draw(st.sampled_from([2, 4, 8]))
     m = draw(st.integers(1, 3))                          # max box extent = m*bf
@@ -61,8 +61,12 @@ def mesh_specs(draw, ndims=None, min_levels=1, max_levels=3, max_cells=6000,
     lcls = draw(st.sampled_from(list(layouts)))
     layout = dict(cls=lcls, seed=draw(st.integers(0, 2 ** 16)),
                   nfiles=1 if lcls == "single" else draw(st.integers(2 if lcls == "scatter" else 1, 4)))
-    return dict(ndims=nd, bf=bf, m=m, nb0=nb0, nlev=nlev, rects=rects, no_unit=no_unit,
-                chop_seed=chop_seed, order_seed=order_seed, layout=layout)
+    ms = dict(ndims=nd, bf=bf, m=m, nb0=nb0, nlev=nlev, rects=rects, no_unit=no_unit,
+              chop_seed=chop_seed, order_seed=order_seed, layout=layout)
+    if thin:
+        # level-0 boxes one cell thick (legal with blocking factor 1; finer levels stay coarsenable): a quarter of the meshes
+        ms["thin0"] = [0, 0, 0, 0, 0, 0, 1, 2][draw(st.integers(0, 2 ** 16)) % 8] and draw(st.integers(1, 2 ** 16))
+    return ms
 
 
 @st.composite
@@ -114,10 +118,10 @@ def payloads(draw, kinds=("coded", "random", "special")):
 def plot_specs(draw, ndims=None, min_levels=1, max_levels=3, max_cells=6000, min_fields=1,
                max_fields=6, payload_kinds=("coded", "random", "special"), origin=True,
                aniso=True, fields=None, layouts=("single", "scatter", "nonmono"),
-               force_no_unit=None, field_pool=None, required_fields=(), max_nb0=5):
+               force_no_unit=None, field_pool=None, required_fields=(), max_nb0=5, thin=False):
     mesh = draw(mesh_specs(ndims=ndims, min_levels=min_levels, max_levels=max_levels,
                            max_cells=max_cells, layouts=layouts, force_no_unit=force_no_unit,
-                           max_nb0=max_nb0))
+                           max_nb0=max_nb0, thin=thin))
     geom = draw(geom_specs(mesh["ndims"], origin=origin, aniso=aniso))
     flds = fields if fields is not None else draw(field_lists(min_fields, max_fields, pool=field_pool,
                                                               required=required_fields))
@@ -174,6 +178,22 @@ def build_mesh(ms):
             for combo in itertools.product(*tl):
                 boxes.append((tuple(c[0] * bf for c in combo), tuple((c[0] + c[1]) * bf - 1 for c in combo)))
             todo = set()
+            if ms.get("thin0"):
+                # peel one-cell-thick slabs off the low face of some boxes along a drawn direction (up to three per box)
+                trng = random.Random(ms["thin0"])
+                out = []
+                for lo, hi in boxes:
+                    d = trng.randrange(nd)
+                    k = trng.choice([0, 1, 1, 2, 3])
+                    lo = list(lo)
+                    while k > 0 and hi[d] - lo[d] >= 1:
+                        slab_hi = list(hi)
+                        slab_hi[d] = lo[d]
+                        out.append((tuple(lo), tuple(slab_hi)))
+                        lo[d] += 1
+                        k -= 1
+                    out.append((tuple(lo), tuple(hi)))
+                boxes = out
         for b in sorted(region, key=lambda t: t[::-1]):
             if b not in todo:
                 continue
@@ -379,6 +399,8 @@ class Plot:
                 break
         if len(set(self.n0)) > 1:
             lab.append("non-cubic")
+        if any(hi[d] == lo[d] for lv in self.levels for lo, hi in lv["boxes"] for d in range(nd)):
+            lab.append("one-cell-thick-box")
         if max(len(lv["boxes"]) for lv in self.levels) > 1:
             lab.append("multi-box")
         if any(o != 0.0 for o in self.geo_lo):
